@@ -2,6 +2,7 @@ package main
 
 import (
 	"fmt"
+	"math/big"
 	"math/rand/v2"
 	"net/netip"
 	"strings"
@@ -135,6 +136,9 @@ func evalC02Enum(alpha string, n, shard, nshards int) Result {
 // ---- generators
 
 func genHexField(rng *rand.Rand) string {
+	if rng.IntN(40) == 0 {
+		return genWrapNumber(rng, 16)
+	}
 	n := pick(rng, 1, 1, 2, 3, 4, 4, 4, 5, 0)
 	const hexd = "0123456789abcdefABCDEF"
 	b := make([]byte, n)
@@ -144,7 +148,27 @@ func genHexField(rng *rand.Rand) string {
 	return string(b)
 }
 
+// genWrapNumber: a number that is small (0..255, or a valid 16-bit group) modulo a machine word
+// size but not as a number: 2^w + k in decimal or hex, and very long digit strings.  A scanner
+// that accumulates without a length bound accepts these.
+func genWrapNumber(rng *rand.Rand, base int) string {
+	w := pick(rng, 8, 16, 31, 32, 63, 64, 64, 64, 128)
+	v := new(big.Int).Lsh(big.NewInt(1), uint(w))
+	v.Mul(v, big.NewInt(int64(1+rng.IntN(3))))
+	v.Add(v, big.NewInt(int64(rng.IntN(256))))
+	switch rng.IntN(6) {
+	case 0:
+		return strings.Repeat(pick(rng, "9", "1", "0"), pick(rng, 19, 20, 21, 40)) + fmt.Sprint(rng.IntN(10))
+	case 1:
+		return "1" + strings.Repeat("0", pick(rng, 19, 20, 21, 39)) + fmt.Sprint(rng.IntN(256))
+	}
+	return v.Text(base)
+}
+
 func genOctet(rng *rand.Rand) string {
+	if rng.IntN(8) == 0 {
+		return genWrapNumber(rng, 10)
+	}
 	return pick(rng, "0", "1", "9", "10", "99", "100", "199", "255", "256", "00", "01", "001", "300", "", "1a", fmt.Sprint(rng.IntN(256)))
 }
 
